@@ -45,4 +45,803 @@ theorem scriptYoung_tail {ev : Ev} {s : List Ev} (h : ScriptYoung (ev :: s)) : S
 theorem scriptYoung_suffix {pre s : List Ev} (h : ScriptYoung (pre ++ s)) : ScriptYoung s :=
   fun a ha => h a (List.mem_append_right _ ha)
 
+/-! ### one connection attempt -/
+
+
+theorem mem_staleOf {hist : List (Option Msg)} {a : Nat} {m : Msg} :
+    m ∈ staleOf hist a ↔ hist[a]? = some (some m) := by
+  unfold staleOf
+  split
+  · rename_i m' h; simp [h]; exact eq_comm
+  · rename_i h
+    constructor
+    · intro hm; simp at hm
+    · intro h'; exact absurd h' (by intro h''; exact h _ h'')
+
+theorem staleOf_cases (hist : List (Option Msg)) (a : Nat) :
+    staleOf hist a = [] ∨ ∃ m, staleOf hist a = [m] ∧ hist[a]? = some (some m) := by
+  unfold staleOf
+  split
+  · rename_i m h; exact Or.inr ⟨m, rfl, h⟩
+  · exact Or.inl rfl
+
+/-- facts about one connection attempt -/
+structure ConnFacts (W : World) (s : List Ev) (r : ConnRes) (W' : World) (s' : List Ev) : Prop where
+  log : W'.log = W.log
+  hist : W'.hist = W.hist
+  seq : W'.seq = W.seq
+  sends : W'.sends = W.sends
+  reads : W'.reads = W.reads
+  suffix : ∃ pre, s = pre ++ s'
+  err : ∀ o, r = .err o → W'.pc = W.pc ∧ o ≠ .stuck ∧ o ≠ .none_ ∧ ∀ k t, o ≠ .returned k t
+  ok : ∀ c, r = .ok c → W'.pc = .live c ∧ c.dead = false ∧ ∀ m ∈ c.queue, m.hs = true
+
+theorem connect_facts (W : World) (s : List Ev) :
+    ConnFacts W s (connect W s).1 (connect W s).2.1 (connect W s).2.2 := by
+  unfold connect
+  cases s with
+  | nil => exact ⟨rfl, rfl, rfl, rfl, rfl, ⟨[], rfl⟩, by intro o h; cases h; simp, by intro c h; cases h⟩
+  | cons ev s' =>
+    cases ev <;> simp [deliver, Ev.reachesServer, hsMsg, pendOutcome, alterSeq]
+    case stale a =>
+      rcases staleOf_cases W.hist a with h | ⟨m, h, _⟩
+      · rw [h]; simp
+        exact ⟨rfl, rfl, rfl, rfl, rfl, ⟨[_], rfl⟩, by simp, by simp⟩
+      · rw [h]; simp
+        by_cases hm : m.hs = true
+        · simp [hm]
+          exact ⟨rfl, rfl, rfl, rfl, rfl, ⟨[_], rfl⟩, by simp, by simp⟩
+        · simp [hm]
+          exact ⟨rfl, rfl, rfl, rfl, rfl, ⟨[_], rfl⟩, by simp, by simp⟩
+    all_goals exact ⟨rfl, rfl, rfl, rfl, rfl, ⟨[_], rfl⟩, by simp, by simp⟩
+
+
+/-! ### one `_pyroInvoke` on an existing connection -/
+
+
+structure InvFacts (k : Kind) (tok : Nat) (W : World) (s : List Ev) (o : Outcome) (W' : World) (s' : List Ev) : Prop where
+  logGrow : W'.log = W.log ∨ W'.log = tok :: W.log
+  logNone : o = .none_ → W'.log = tok :: W.log
+  logRet : ∀ k' t', o = .returned k' t' → W'.log = tok :: W.log
+  logOnewayFail : k.isOneway = true → ∀ e, o = .failed e → W'.log = W.log
+  released : ∀ e, o = .failed e → W'.pc.isLive = false
+  suffix : ∃ pre, s = pre ++ s'
+  notStuck : o ≠ .stuck
+  reads : k.isOneway = true → W'.reads = W.reads
+  onewayOut : k.isOneway = true → ∀ k' t', o ≠ .returned k' t'
+  twowayOut : k.isOneway = false → o ≠ .none_
+
+section
+variable {k : Kind} {tok : Nat} {W W' : World} {s s' : List Ev}
+
+theorem InvFacts.mk_none (hk : k.isOneway = true) (hlog : W'.log = tok :: W.log) (hr : W'.reads = W.reads)
+    (hs : ∃ pre, s = pre ++ s') : InvFacts k tok W s .none_ W' s' where
+  logGrow := Or.inr hlog
+  logNone := fun _ => hlog
+  logRet := fun _ _ h => by cases h
+  logOnewayFail := fun _ _ h => by cases h
+  released := fun _ h => by cases h
+  suffix := hs
+  notStuck := by simp
+  reads := fun _ => hr
+  onewayOut := fun _ _ _ => by simp
+  twowayOut := fun h => by simp [hk] at h
+
+theorem InvFacts.mk_failed0 (e : Err) (hlog : W'.log = W.log) (hpc : W'.pc.isLive = false) (hr : W'.reads = W.reads)
+    (hs : ∃ pre, s = pre ++ s') : InvFacts k tok W s (.failed e) W' s' where
+  logGrow := Or.inl hlog
+  logNone := fun h => by cases h
+  logRet := fun _ _ h => by cases h
+  logOnewayFail := fun _ _ _ => hlog
+  released := fun _ _ => hpc
+  suffix := hs
+  notStuck := by simp
+  reads := fun _ => hr
+  onewayOut := fun _ _ _ => by simp
+  twowayOut := fun _ => by simp
+
+theorem InvFacts.mk_failed1 (e : Err) (hk : k.isOneway = false) (hlog : W'.log = tok :: W.log) (hpc : W'.pc.isLive = false)
+    (hs : ∃ pre, s = pre ++ s') : InvFacts k tok W s (.failed e) W' s' where
+  logGrow := Or.inr hlog
+  logNone := fun h => by cases h
+  logRet := fun _ _ h => by cases h
+  logOnewayFail := fun h => by simp [hk] at h
+  released := fun _ _ => hpc
+  suffix := hs
+  notStuck := by simp
+  reads := fun h => by simp [hk] at h
+  onewayOut := fun _ _ _ => by simp
+  twowayOut := fun _ => by simp
+
+theorem InvFacts.mk_returned (k' : Kind) (t' : Nat) (hk : k.isOneway = false) (hlog : W'.log = tok :: W.log)
+    (hs : ∃ pre, s = pre ++ s') : InvFacts k tok W s (.returned k' t') W' s' where
+  logGrow := Or.inr hlog
+  logNone := fun h => by cases h
+  logRet := fun _ _ _ => hlog
+  logOnewayFail := fun h => by simp [hk] at h
+  released := fun _ h => by cases h
+  suffix := hs
+  notStuck := by simp
+  reads := fun h => by simp [hk] at h
+  onewayOut := fun h => by simp [hk] at h
+  twowayOut := fun _ => by simp
+
+theorem InvFacts.mk_end (hs : ∃ pre, s = pre ++ s') : InvFacts k tok W s .scriptEnd W s' where
+  logGrow := Or.inl rfl
+  logNone := fun h => by cases h
+  logRet := fun _ _ h => by cases h
+  logOnewayFail := fun _ _ h => by cases h
+  released := fun _ h => by cases h
+  suffix := hs
+  notStuck := by simp
+  reads := fun _ => rfl
+  onewayOut := fun _ _ _ => by simp
+  twowayOut := fun _ => by simp
+end
+
+theorem invokeOn_facts (k : Kind) (tok : Nat) (W : World) (c : Conn) (s : List Ev) :
+    InvFacts k tok W s (invokeOn real k tok W c s).1 (invokeOn real k tok W c s).2.1 (invokeOn real k tok W c s).2.2 := by
+  unfold invokeOn
+  by_cases hd : c.dead = true
+  · simp [hd, failWith, real]
+    exact .mk_failed0 _ rfl rfl rfl ⟨[], rfl⟩
+  · simp only [hd]
+    cases s with
+    | nil => exact .mk_end ⟨[], rfl⟩
+    | cons ev s' =>
+      by_cases hk : k.isOneway = true
+      · cases ev <;> simp [hk, deliver, Ev.reachesServer, failWith, real]
+        all_goals first
+          | exact .mk_none hk rfl rfl ⟨[_], rfl⟩
+          | exact .mk_failed0 _ rfl rfl rfl ⟨[_], rfl⟩
+      · have hk' : k.isOneway = false := by simpa using hk
+        have two : ∀ (m : Msg) (q : Nat) (Wf Wr : World),
+            Wf.log = tok :: W.log → Wf.pc.isLive = false → Wr.log = tok :: W.log →
+            InvFacts k tok W (ev :: s')
+              (if m.hs = true then (Outcome.failed Err.protocol, Wf, s')
+               else if m.seq = q then (Outcome.returned m.kind m.tok, Wr, s') else (Outcome.failed Err.protocol, Wf, s')).1
+              (if m.hs = true then (Outcome.failed Err.protocol, Wf, s')
+               else if m.seq = q then (Outcome.returned m.kind m.tok, Wr, s') else (Outcome.failed Err.protocol, Wf, s')).2.1
+              (if m.hs = true then (Outcome.failed Err.protocol, Wf, s')
+               else if m.seq = q then (Outcome.returned m.kind m.tok, Wr, s') else (Outcome.failed Err.protocol, Wf, s')).2.2 := by
+          intro m q Wf Wr h1 h2 h3
+          by_cases hm : m.hs = true
+          · simp [hm]; exact .mk_failed1 _ hk' h1 h2 ⟨[_], rfl⟩
+          · by_cases hs : m.seq = q
+            · simp [hm, hs]; exact .mk_returned _ _ hk' h3 ⟨[_], rfl⟩
+            · simp [hm, hs]; exact .mk_failed1 _ hk' h1 h2 ⟨[_], rfl⟩
+        cases hq : c.queue with
+        | nil =>
+          cases ev <;> simp [hk', deliver, Ev.reachesServer, failWith, real, pendOutcome, alterSeq, hsMsg]
+          case stale a =>
+            rcases staleOf_cases W.hist a with h | ⟨m, h, _⟩ <;> rw [h] <;> simp
+            · exact .mk_returned _ _ hk' rfl ⟨[_], rfl⟩
+            · exact two _ _ _ _ (by rfl) (by rfl) (by rfl)
+          case seqAlt d =>
+            have hne : ((W.seq + 1) % seqMod + 1 + d % 65535) % seqMod ≠ (W.seq + 1) % seqMod := by
+              simp only [seqMod]; omega
+            simp [hne]
+            exact .mk_failed1 _ hk' rfl rfl ⟨[_], rfl⟩
+          all_goals first
+            | exact .mk_returned _ _ hk' rfl ⟨[_], rfl⟩
+            | exact .mk_failed1 _ hk' rfl rfl ⟨[_], rfl⟩
+            | exact .mk_failed0 _ rfl rfl rfl ⟨[_], rfl⟩
+        | cons m rest =>
+          by_cases hr : ev.reachesServer = true
+          · simp [hk', hr, failWith, real]
+            exact two _ _ _ _ (by rfl) (by rfl) (by rfl)
+          · simp [hr, failWith, real]
+            exact .mk_failed0 _ rfl rfl rfl ⟨[_], rfl⟩
+
+
+/-! ### invariant preservation and the own-reply lemma for one `_pyroInvoke` -/
+
+
+def QOKl (sends : Nat) (l : List Msg) : Prop := ∀ m ∈ l, MsgOK sends m
+
+theorem qokl_nil (n : Nat) : QOKl n [] := by intro m h; cases h
+theorem qokl_append {n : Nat} {a b : List Msg} (ha : QOKl n a) (hb : QOKl n b) : QOKl n (a ++ b) := by
+  intro m h; rcases List.mem_append.mp h with h | h
+  · exact ha m h
+  · exact hb m h
+theorem qokl_mono {n n' : Nat} {l : List Msg} (h : QOKl n l) (hn : n ≤ n') : QOKl n' l := by
+  intro m hm hh; have := h m hm hh; exact ⟨this.1, Nat.le_trans this.2 hn⟩
+theorem qokl_tail {n : Nat} {m : Msg} {l : List Msg} (h : QOKl n (m :: l)) : QOKl n l :=
+  fun x hx => h x (List.mem_cons_of_mem _ hx)
+theorem qokl_hs {n : Nat} {l : List Msg} (h : ∀ m ∈ l, m.hs = true) : QOKl n l := by
+  intro m hm hh; rw [h m hm] at hh; cases hh
+theorem qokl_stale {W : World} (hH : HistInv W) (a : Nat) : QOKl (W.sends + 1) (staleOf W.hist a) := by
+  intro m hm hh
+  have := hH.2 a m (mem_staleOf.mp hm)
+  exact ⟨this.2.1, by omega⟩
+theorem qokl_single {n : Nat} {m : Msg} (h : MsgOK n m) : QOKl n [m] := by
+  intro x hx; simp at hx; subst hx; exact h
+
+theorem histInv_push {W W' : World} (hH : HistInv W) (x : Option Msg)
+    (hx : ∀ m, x = some m → m.hs = false ∧ m.seq = m.born % seqMod ∧ m.born = W.sends + 1)
+    (h1 : W'.seq = (W.seq + 1) % seqMod) (h2 : W'.sends = W.sends + 1) (h3 : W'.hist = x :: W.hist) : HistInv W' := by
+  refine ⟨?_, ?_⟩
+  · rw [h1, h2, hH.1]; simp only [seqMod]; omega
+  · intro a m h
+    rw [h3] at h
+    cases a with
+    | zero =>
+      simp at h
+      have := hx m h
+      exact ⟨this.1, this.2.1, by rw [h2]; omega⟩
+    | succ a =>
+      simp at h
+      have := hH.2 a m h
+      exact ⟨this.1, this.2.1, by rw [h2]; omega⟩
+
+theorem inv_of {W' : World} (hH : HistInv W') (hq : ∀ c', W'.pc = .live c' → QOKl W'.sends c'.queue) : Inv W' :=
+  ⟨hH, hq⟩
+
+
+theorem inv_push_live {W W' : World} (hH : HistInv W) (x : Option Msg)
+    (hx : ∀ m, x = some m → m.hs = false ∧ m.seq = m.born % seqMod ∧ m.born = W.sends + 1)
+    (q : List Msg) (d : Bool) (hq : QOKl (W.sends + 1) q)
+    (h1 : W'.seq = (W.seq + 1) % seqMod) (h2 : W'.sends = W.sends + 1) (h3 : W'.hist = x :: W.hist)
+    (hpc : W'.pc = .live ⟨q, d⟩) : Inv W' := by
+  refine ⟨histInv_push hH x hx h1 h2 h3, ?_⟩
+  intro c' hc'
+  rw [hpc] at hc'
+  cases hc'
+  rw [h2]; exact hq
+
+theorem inv_push_idle {W W' : World} (hH : HistInv W) (x : Option Msg)
+    (hx : ∀ m, x = some m → m.hs = false ∧ m.seq = m.born % seqMod ∧ m.born = W.sends + 1)
+    (h1 : W'.seq = (W.seq + 1) % seqMod) (h2 : W'.sends = W.sends + 1) (h3 : W'.hist = x :: W.hist)
+    (hpc : W'.pc = .idle) : Inv W' := by
+  refine ⟨histInv_push hH x hx h1 h2 h3, ?_⟩
+  intro c' hc'
+  rw [hpc] at hc'
+  cases hc'
+
+theorem invokeOn_inv (k : Kind) (tok : Nat) (W : World) (c : Conn) (s : List Ev)
+    (hI : Inv W) (hQ : QOKl W.sends c.queue) (hY : QYoung W.sends c) (hS : ScriptYoung s) :
+    Inv (invokeOn real k tok W c s).2.1 ∧
+    ∀ k' t', (invokeOn real k tok W c s).1 = .returned k' t' → k' = k ∧ t' = tok := by
+  have hH := hI.1
+  have hseq := hH.1
+  have hQ1 : QOKl (W.sends + 1) c.queue := qokl_mono hQ (Nat.le_succ _)
+  unfold invokeOn
+  by_cases hd : c.dead = true
+  · simp [hd, failWith, real]
+    exact inv_push_idle hH none (by simp) rfl rfl rfl rfl
+  · simp only [hd]
+    cases s with
+    | nil =>
+      simp
+      exact hI
+    | cons ev s' =>
+      by_cases hk : k.isOneway = true
+      · cases ev <;> simp [hk, deliver, Ev.reachesServer, failWith, real]
+        all_goals first
+          | exact inv_push_idle hH none (by simp) rfl rfl rfl rfl
+          | exact inv_push_live hH none (by simp) _ _ hQ1 rfl rfl rfl rfl
+          | exact inv_push_live hH none (by simp) _ _ (qokl_append hQ1 (qokl_stale hH _)) rfl rfl rfl rfl
+          | exact inv_push_live hH none (by simp) _ _ (qokl_append hQ1 (qokl_hs (by simp [hsMsg]))) rfl rfl rfl rfl
+      · have hk' : k.isOneway = false := by simpa using hk
+        let r : Msg := ⟨false, (W.seq + 1) % seqMod, k, tok, W.sends + 1⟩
+        have hr : ∀ m, some r = some m → m.hs = false ∧ m.seq = m.born % seqMod ∧ m.born = W.sends + 1 := by
+          intro m h; cases h
+          refine ⟨rfl, ?_, rfl⟩
+          show (W.seq + 1) % seqMod = (W.sends + 1) % seqMod
+          rw [hseq]; simp only [seqMod]; omega
+        have hrOK : MsgOK (W.sends + 1) r := fun _ => ⟨(hr r rfl).2.1, Nat.le_refl _⟩
+        -- the read decision on a head message `m`
+        have two : ∀ (m : Msg) (Wf Wr : World) (s1 : List Ev), Inv Wf →
+            (m.hs = false → m.seq = (W.seq + 1) % seqMod → Inv Wr ∧ m.kind = k ∧ m.tok = tok) →
+            Inv (if m.hs = true then (Outcome.failed Err.protocol, Wf, s1)
+               else if m.seq = (W.seq + 1) % seqMod then (Outcome.returned m.kind m.tok, Wr, s1)
+               else (Outcome.failed Err.protocol, Wf, s1)).2.1 ∧
+            ∀ k' t', (if m.hs = true then (Outcome.failed Err.protocol, Wf, s1)
+               else if m.seq = (W.seq + 1) % seqMod then (Outcome.returned m.kind m.tok, Wr, s1)
+               else (Outcome.failed Err.protocol, Wf, s1)).1 = .returned k' t' → k' = k ∧ t' = tok := by
+          intro m Wf Wr s1 hf hg
+          by_cases hm : m.hs = true
+          · simp [hm]; exact hf
+          · by_cases hs : m.seq = (W.seq + 1) % seqMod
+            · have := hg (by simpa using hm) hs
+              simp [hm, hs]; exact this
+            · simp [hm, hs]; exact hf
+        cases hq : c.queue with
+        | nil =>
+          cases ev <;> simp [hk', deliver, Ev.reachesServer, failWith, real, pendOutcome, alterSeq, hsMsg]
+          case stale a =>
+            rcases staleOf_cases W.hist a with h | ⟨m, h, hm⟩ <;> rw [h] <;> simp
+            · exact inv_push_live hH (some r) hr _ _ (qokl_nil _) rfl rfl rfl rfl
+            · refine two m _ _ _ (inv_push_idle hH (some r) hr rfl rfl rfl rfl) ?_
+              intro _ hs
+              exfalso
+              have h1 := hH.2 a m hm
+              have h2 := hS a (List.mem_cons_self ..)
+              rw [h1.2.1, hseq] at hs
+              simp only [seqMod] at hs h2
+              omega
+          case seqAlt d =>
+            have hne : ((W.seq + 1) % seqMod + 1 + d % 65535) % seqMod ≠ (W.seq + 1) % seqMod := by
+              simp only [seqMod]; omega
+            simp [hne]
+            exact inv_push_idle hH (some r) hr rfl rfl rfl rfl
+          all_goals first
+            | exact inv_push_idle hH none (by simp) rfl rfl rfl rfl
+            | exact inv_push_idle hH (some r) hr rfl rfl rfl rfl
+            | exact inv_push_live hH (some r) hr _ _ (qokl_nil _) rfl rfl rfl rfl
+            | exact inv_push_live hH (some r) hr _ _ (qokl_single hrOK) rfl rfl rfl rfl
+        | cons m rest =>
+          by_cases hrs : ev.reachesServer = true
+          · simp [hk', hrs, failWith, real]
+            refine two m _ _ _ (inv_push_idle hH (some r) hr rfl rfl rfl rfl) ?_
+            intro hm hs
+            exfalso
+            have h1 := hQ m (by rw [hq]; exact List.mem_cons_self ..) hm
+            have h2 := hY m (by rw [hq]; exact List.mem_cons_self ..) hm
+            rw [h1.1, hseq] at hs
+            simp only [seqMod] at hs h2
+            omega
+          · simp [hrs, failWith, real]
+            exact inv_push_idle hH none (by simp) rfl rfl rfl rfl
+
+
+/-! ### attempts, the retry loop, whole calls -/
+
+
+theorem InvFacts.transport {k : Kind} {tok : Nat} {W W1 W' : World} {s s1 s' : List Ev} {o : Outcome}
+    (h : InvFacts k tok W1 s1 o W' s') (hl : W1.log = W.log) (hr : W1.reads = W.reads) (hs : ∃ pre, s = pre ++ s1) :
+    InvFacts k tok W s o W' s' where
+  logGrow := hl ▸ h.logGrow
+  logNone := hl ▸ h.logNone
+  logRet := hl ▸ h.logRet
+  logOnewayFail := hl ▸ h.logOnewayFail
+  released := h.released
+  suffix := by
+    obtain ⟨p1, h1⟩ := hs
+    obtain ⟨p2, h2⟩ := h.suffix
+    exact ⟨p1 ++ p2, by rw [h1, h2, List.append_assoc]⟩
+  notStuck := h.notStuck
+  reads := fun hk => (h.reads hk).trans hr
+  onewayOut := h.onewayOut
+  twowayOut := h.twowayOut
+
+theorem invoke_facts (k : Kind) (tok : Nat) (W : World) (s : List Ev) :
+    InvFacts k tok W s (invoke real k tok W s).1 (invoke real k tok W s).2.1 (invoke real k tok W s).2.2 := by
+  unfold invoke
+  cases hpc : W.pc with
+  | live c => exact invokeOn_facts k tok W c s
+  | fresh | idle =>
+    simp only
+    have hc := connect_facts W s
+    generalize connect W s = res at hc
+    obtain ⟨r, W1, s1⟩ := res
+    cases r with
+    | err o =>
+      have := hc.err o rfl
+      simp only at this ⊢
+      refine ⟨Or.inl hc.log, fun h => absurd h this.2.2.1, fun k' t' h => absurd h (this.2.2.2 k' t'), fun _ _ _ => hc.log,
+        fun _ _ => by rw [this.1, hpc]; rfl, hc.suffix, this.2.1, fun _ => hc.reads, fun _ k' t' => this.2.2.2 k' t', fun _ => this.2.2.1⟩
+    | ok c =>
+      simp only
+      exact (invokeOn_facts k tok W1 c s1).transport hc.log hc.reads hc.suffix
+
+theorem not_live_young {W : World} {s : List Ev} (h : W.pc.isLive = false) (hs : ScriptYoung s) : Young W s :=
+  ⟨hs, fun c hc => by rw [hc] at h; cases h⟩
+
+theorem invoke_inv (k : Kind) (tok : Nat) (W : World) (s : List Ev) (hI : Inv W) (hY : Young W s) :
+    Inv (invoke real k tok W s).2.1 ∧
+    ∀ k' t', (invoke real k tok W s).1 = .returned k' t' → k' = k ∧ t' = tok := by
+  unfold invoke
+  cases hpc : W.pc with
+  | live c => exact invokeOn_inv k tok W c s hI (hI.2 c hpc) (hY.2 c hpc) hY.1
+  | fresh | idle =>
+    simp only
+    have hc := connect_facts W s
+    generalize connect W s = res at hc
+    obtain ⟨r, W1, s1⟩ := res
+    have hH1 : HistInv W1 := by
+      refine ⟨by rw [hc.seq, hc.sends]; exact hI.1.1, ?_⟩
+      intro a m h
+      rw [hc.hist] at h
+      rw [hc.sends]
+      exact hI.1.2 a m h
+    obtain ⟨pre, hpre⟩ := hc.suffix
+    have hS1 : ScriptYoung s1 := scriptYoung_suffix (hpre ▸ hY.1)
+    cases r with
+    | err o =>
+      have := hc.err o rfl
+      simp only at this ⊢
+      refine ⟨⟨hH1, ?_⟩, fun k' t' h => absurd h (this.2.2.2 k' t')⟩
+      intro c' hc'
+      rw [this.1, hpc] at hc'
+      cases hc'
+    | ok c =>
+      simp only
+      have := hc.ok c rfl
+      have hQ : QOKl W1.sends c.queue := qokl_hs this.2.2
+      have hI1 : Inv W1 := ⟨hH1, fun c' hc' => by rw [this.1] at hc'; cases hc'; exact hQ⟩
+      refine invokeOn_inv k tok W1 c s1 hI1 hQ ?_ hS1
+      intro m hm hh
+      rw [this.2.2 m hm] at hh
+      cases hh
+
+/-- facts about a whole call (`bound` = number of attempts allowed) -/
+structure CallFacts (bound : Nat) (k : Kind) (tok : Nat) (W : World) (s : List Ev) (o : Outcome) (W' : World) (s' : List Ev) : Prop where
+  log : ∃ m, m ≤ bound ∧ W'.log = List.replicate m tok ++ W.log ∧
+        (o = .none_ → 1 ≤ m) ∧ (∀ k' t', o = .returned k' t' → 1 ≤ m) ∧
+        (k.isOneway = true → m ≤ 1 ∧ ∀ e, o = .failed e → m = 0)
+  released : ∀ e, o = .failed e → W'.pc.isLive = false
+  suffix : ∃ pre, s = pre ++ s'
+  notStuck : o ≠ .stuck
+  reads : k.isOneway = true → W'.reads = W.reads
+  onewayOut : k.isOneway = true → ∀ k' t', o ≠ .returned k' t'
+  twowayOut : k.isOneway = false → o ≠ .none_
+
+theorem InvFacts.toCall {k : Kind} {tok : Nat} {W W' : World} {s s' : List Ev} {o : Outcome}
+    (h : InvFacts k tok W s o W' s') (b : Nat) : CallFacts (b + 1) k tok W s o W' s' where
+  log := by
+    rcases h.logGrow with hl | hl
+    · refine ⟨0, Nat.zero_le _, by simpa using hl, ?_, ?_, fun _ => ⟨Nat.zero_le _, fun _ _ => rfl⟩⟩
+      · intro ho; have := h.logNone ho; rw [hl] at this; exact absurd this (by simp)
+      · intro k' t' ho; have := h.logRet k' t' ho; rw [hl] at this; exact absurd this (by simp)
+    · refine ⟨1, by omega, by simpa using hl, fun _ => Nat.le_refl _, fun _ _ _ => Nat.le_refl _, fun hk => ⟨Nat.le_refl _, ?_⟩⟩
+      intro e he; have := h.logOnewayFail hk e he; rw [hl] at this; exact absurd this (by simp)
+  released := h.released
+  suffix := h.suffix
+  notStuck := h.notStuck
+  reads := h.reads
+  onewayOut := h.onewayOut
+  twowayOut := h.twowayOut
+
+theorem retryLoop_facts (k : Kind) (tok : Nat) (n : Nat) : ∀ (W : World) (s : List Ev),
+    CallFacts (n + 1) k tok W s (retryLoop real k tok n W s).1 (retryLoop real k tok n W s).2.1 (retryLoop real k tok n W s).2.2 := by
+  induction n with
+  | zero => intro W s; exact (invoke_facts k tok W s).toCall 0
+  | succ n ih =>
+    intro W s
+    unfold retryLoop
+    have h1 := invoke_facts k tok W s
+    generalize invoke real k tok W s = res at h1
+    obtain ⟨o, W1, s1⟩ := res
+    simp only at h1
+    cases o with
+    | failed e =>
+      simp only
+      by_cases hr : e.retryable = true
+      · simp only [hr, if_true]
+        have h2 := ih W1 s1
+        generalize retryLoop real k tok n W1 s1 = res2 at h2
+        obtain ⟨o2, W2, s2⟩ := res2
+        simp only at h2 ⊢
+        obtain ⟨m, hm, hlog, hnone, hret, how⟩ := h2.log
+        refine ⟨?_, h2.released, ?_, h2.notStuck, fun hk => (h2.reads hk).trans (h1.reads hk), h2.onewayOut, h2.twowayOut⟩
+        · rcases h1.logGrow with hl | hl
+          · exact ⟨m, by omega, by rw [hlog, hl], hnone, hret, how⟩
+          · refine ⟨m + 1, by omega, by rw [hlog, hl, List.replicate_succ']; simp, fun h => by omega, fun _ _ _ => by omega, ?_⟩
+            intro hk
+            have := h1.logOnewayFail hk e rfl
+            rw [hl] at this
+            exact absurd this (by simp)
+        · obtain ⟨p1, e1⟩ := h1.suffix
+          obtain ⟨p2, e2⟩ := h2.suffix
+          exact ⟨p1 ++ p2, by rw [e1, e2, List.append_assoc]⟩
+      · simp only [hr]
+        have := h1.toCall (n + 1)
+        simpa using this
+    | returned k' t' => simpa using h1.toCall (n + 1)
+    | none_ => simpa using h1.toCall (n + 1)
+    | stuck => simpa using h1.toCall (n + 1)
+    | scriptEnd => simpa using h1.toCall (n + 1)
+
+theorem retryLoop_inv (k : Kind) (tok : Nat) (n : Nat) : ∀ (W : World) (s : List Ev), Inv W → Young W s →
+    Inv (retryLoop real k tok n W s).2.1 ∧
+    ∀ k' t', (retryLoop real k tok n W s).1 = .returned k' t' → k' = k ∧ t' = tok := by
+  induction n with
+  | zero => intro W s hI hY; exact invoke_inv k tok W s hI hY
+  | succ n ih =>
+    intro W s hI hY
+    unfold retryLoop
+    have h1 := invoke_inv k tok W s hI hY
+    have f1 := invoke_facts k tok W s
+    generalize invoke real k tok W s = res at h1 f1
+    obtain ⟨o, W1, s1⟩ := res
+    simp only at h1 f1
+    cases o with
+    | failed e =>
+      simp only
+      by_cases hr : e.retryable = true
+      · simp only [hr, if_true]
+        obtain ⟨pre, hpre⟩ := f1.suffix
+        exact ih W1 s1 h1.1 (not_live_young (f1.released e rfl) (scriptYoung_suffix (hpre ▸ hY.1)))
+      · simp only [hr]
+        simpa using h1
+    | returned k' t' => simpa using h1
+    | none_ => simpa using h1
+    | stuck => simpa using h1
+    | scriptEnd => simpa using h1
+
+/-- number of attempts a call of this kind may make -/
+def attempts (retries : Nat) (k : Kind) : Nat := if k.retried then retries + 1 else 1
+
+theorem body_facts (retries : Nat) (k : Kind) (tok : Nat) (W : World) (s : List Ev) :
+    CallFacts (attempts retries k) k tok W s (body real retries k tok W s).1 (body real retries k tok W s).2.1
+      (body real retries k tok W s).2.2 := by
+  unfold body attempts
+  by_cases hk : k.retried = true
+  · simp only [hk, if_true]; exact retryLoop_facts k tok retries W s
+  · simp only [hk]; exact (invoke_facts k tok W s).toCall 0
+
+theorem body_inv (retries : Nat) (k : Kind) (tok : Nat) (W : World) (s : List Ev) (hI : Inv W) (hY : Young W s) :
+    Inv (body real retries k tok W s).2.1 ∧
+    ∀ k' t', (body real retries k tok W s).1 = .returned k' t' → k' = k ∧ t' = tok := by
+  unfold body
+  by_cases hk : k.retried = true
+  · simp only [hk, if_true]; exact retryLoop_inv k tok retries W s hI hY
+  · simp only [hk]; exact invoke_inv k tok W s hI hY
+
+theorem CallFacts.refused {b : Nat} {k : Kind} {tok : Nat} {W : World} {s : List Ev} (e : Err) (h : W.pc.isLive = false) :
+    CallFacts b k tok W s (.failed e) W s where
+  log := ⟨0, Nat.zero_le _, rfl, (fun h => nomatch h), (fun _ _ h => nomatch h), fun _ => ⟨Nat.zero_le _, fun _ _ => rfl⟩⟩
+  released := fun _ _ => h
+  suffix := ⟨[], rfl⟩
+  notStuck := by simp
+  reads := fun _ => rfl
+  onewayOut := fun _ _ _ => by simp
+  twowayOut := fun _ => by simp
+
+theorem call_facts (retries : Nat) (k : Kind) (tok : Nat) (W : World) (s : List Ev) :
+    CallFacts (attempts retries k) k tok W s (call real retries k tok W s).1 (call real retries k tok W s).2.1
+      (call real retries k tok W s).2.2 := by
+  unfold call
+  cases hpc : W.pc with
+  | live c => exact body_facts retries k tok W s
+  | idle =>
+    simp only
+    by_cases hp : k.precheck = true
+    · simp only [hp, if_true]; exact .refused _ (by rw [hpc]; rfl)
+    · simp only [hp]; exact body_facts retries k tok W s
+  | fresh =>
+    simp only
+    by_cases hp : k.precheck = true
+    · simp only [hp, if_true]; exact .refused _ (by rw [hpc]; rfl)
+    · rw [if_neg hp]
+      by_cases hm : k.needsMeta = true
+      · rw [if_pos hm]
+        have hc := connect_facts W s
+        generalize connect W s = res at hc
+        obtain ⟨r, W1, s1⟩ := res
+        cases r with
+        | err o =>
+          have := hc.err o rfl
+          simp only at this ⊢
+          refine ⟨⟨0, Nat.zero_le _, by simpa using hc.log, fun h => absurd h this.2.2.1, fun k' t' h => absurd h (this.2.2.2 k' t'),
+            fun _ => ⟨Nat.zero_le _, fun _ _ => rfl⟩⟩, fun _ _ => by rw [this.1, hpc]; rfl, hc.suffix, this.2.1, fun _ => hc.reads,
+            fun _ k' t' => this.2.2.2 k' t', fun _ => this.2.2.1⟩
+        | ok c =>
+          simp only
+          have hb := body_facts retries k tok W1 s1
+          obtain ⟨m, hm1, hlog, h3⟩ := hb.log
+          refine ⟨⟨m, hm1, by rw [hlog, hc.log], h3⟩, hb.released, ?_, hb.notStuck, fun hk => (hb.reads hk).trans hc.reads,
+            hb.onewayOut, hb.twowayOut⟩
+          obtain ⟨p1, e1⟩ := hc.suffix
+          obtain ⟨p2, e2⟩ := hb.suffix
+          exact ⟨p1 ++ p2, by rw [List.append_assoc, ← e2]; exact e1⟩
+      · rw [if_neg hm]; exact body_facts retries k tok W s
+
+theorem call_inv (retries : Nat) (k : Kind) (tok : Nat) (W : World) (s : List Ev) (hI : Inv W) (hY : Young W s) :
+    Inv (call real retries k tok W s).2.1 ∧
+    ∀ k' t', (call real retries k tok W s).1 = .returned k' t' → k' = k ∧ t' = tok := by
+  unfold call
+  cases hpc : W.pc with
+  | live c => exact body_inv retries k tok W s hI hY
+  | idle =>
+    simp only
+    by_cases hp : k.precheck = true
+    · simp only [hp, if_true]; exact ⟨hI, fun _ _ h => by cases h⟩
+    · simp only [hp]; exact body_inv retries k tok W s hI hY
+  | fresh =>
+    simp only
+    by_cases hp : k.precheck = true
+    · simp only [hp, if_true]; exact ⟨hI, fun _ _ h => by cases h⟩
+    · rw [if_neg hp]
+      by_cases hm : k.needsMeta = true
+      · rw [if_pos hm]
+        have hc := connect_facts W s
+        generalize connect W s = res at hc
+        obtain ⟨r, W1, s1⟩ := res
+        have hH1 : HistInv W1 := by
+          refine ⟨by rw [hc.seq, hc.sends]; exact hI.1.1, ?_⟩
+          intro a m h
+          rw [hc.hist] at h
+          rw [hc.sends]
+          exact hI.1.2 a m h
+        obtain ⟨pre, hpre⟩ := hc.suffix
+        have hS1 : ScriptYoung s1 := scriptYoung_suffix (hpre ▸ hY.1)
+        cases r with
+        | err o =>
+          have := hc.err o rfl
+          simp only at this ⊢
+          refine ⟨⟨hH1, ?_⟩, fun k' t' h => absurd h (this.2.2.2 k' t')⟩
+          intro c' hc'
+          rw [this.1, hpc] at hc'
+          cases hc'
+        | ok c =>
+          simp only
+          have := hc.ok c rfl
+          have hQ : QOKl W1.sends c.queue := qokl_hs this.2.2
+          have hI1 : Inv W1 := ⟨hH1, fun c' hc' => by rw [this.1] at hc'; cases hc'; exact hQ⟩
+          refine body_inv retries k tok W1 s1 hI1 ⟨hS1, ?_⟩
+          intro c' hc' m hm' hh
+          rw [this.1] at hc'
+          cases hc'
+          rw [this.2.2 m hm'] at hh
+          cases hh
+      · rw [if_neg hm]; exact body_inv retries k tok W s hI hY
+
+
+/-! ### healthy transport, sequence numbers -/
+
+/-- the reply a healthy transport hands to a call -/
+def ownOutcome (k : Kind) (tok : Nat) : Outcome := if k.isOneway then .none_ else .returned k tok
+
+theorem call_healthy (retries : Nat) (k : Kind) (tok : Nat) (W : World) (s : List Ev)
+    (hpc : W.pc.isLive = false) (hk : k.precheck = false) :
+    (call real retries k tok W (.ok :: .ok :: s)).1 = ownOutcome k tok ∧
+    (call real retries k tok W (.ok :: .ok :: s)).2.2 = s ∧
+    (call real retries k tok W (.ok :: .ok :: s)).2.1.log = tok :: W.log ∧
+    (call real retries k tok W (.ok :: .ok :: s)).2.1.pc = .live ⟨[], false⟩ := by
+  cases hp : W.pc with
+  | live c => rw [hp] at hpc; cases hpc
+  | fresh =>
+    cases k <;> cases retries <;>
+      simp [call, body, retryLoop, invoke, connect, invokeOn, deliver, hp, Kind.precheck, Kind.retried,
+        Kind.isOneway, Ev.reachesServer, hsMsg, ownOutcome, real] at hk ⊢
+  | idle =>
+    cases k <;> cases retries <;>
+      simp [call, body, retryLoop, invoke, connect, invokeOn, deliver, hp, Kind.precheck, Kind.retried,
+        Kind.isOneway, Ev.reachesServer, hsMsg, ownOutcome, real] at hk ⊢
+
+
+theorem invokeOn_seq (k : Kind) (tok : Nat) (W : World) (c : Conn) (s : List Ev)
+    (h : (invokeOn real k tok W c s).1 ≠ .scriptEnd) :
+    (invokeOn real k tok W c s).2.1.seq = (W.seq + 1) % seqMod := by
+  revert h
+  unfold invokeOn
+  by_cases hd : c.dead = true
+  · simp [hd, failWith, real]
+  · simp only [hd]
+    cases s with
+    | nil => simp
+    | cons ev s' =>
+      intro _
+      by_cases hr : ev.reachesServer = true
+      · by_cases hk : k.isOneway = true
+        · simp [hr, hk]
+        · simp [hr, hk, failWith, real]
+          split
+          · split
+            · rfl
+            · split <;> rfl
+          · split <;> rfl
+      · simp [hr, failWith, real]
+
+
+/-- the call came back to its caller with a value (or, oneway, with None) -/
+def Outcome.done : Outcome → Bool
+  | .returned _ _ => true
+  | .none_ => true
+  | _ => false
+
+theorem invoke_seq (k : Kind) (tok : Nat) (W : World) (s : List Ev)
+    (h : (invoke real k tok W s).1.done = true) :
+    (invoke real k tok W s).2.1.seq = (W.seq + 1) % seqMod := by
+  revert h
+  unfold invoke
+  cases hpc : W.pc with
+  | live c =>
+    intro h
+    exact invokeOn_seq k tok W c s (by intro h'; rw [h'] at h; cases h)
+  | fresh | idle =>
+    simp only
+    have hc := connect_facts W s
+    generalize connect W s = res at hc
+    obtain ⟨r, W1, s1⟩ := res
+    cases r with
+    | err o =>
+      have := hc.err o rfl
+      simp only
+      intro h
+      cases o <;> simp [Outcome.done] at h this
+    | ok c =>
+      simp only
+      intro h
+      rw [invokeOn_seq k tok W1 c s1 (by intro h'; rw [h'] at h; cases h)]
+      have := hc.seq
+      simp only at this
+      rw [this]
+
+theorem body_seq_single (retries : Nat) (k : Kind) (tok : Nat) (W : World) (s : List Ev)
+    (ha : attempts retries k = 1) (h : (body real retries k tok W s).1.done = true) :
+    (body real retries k tok W s).2.1.seq = (W.seq + 1) % seqMod := by
+  revert h
+  unfold body
+  unfold attempts at ha
+  by_cases hk : k.retried = true
+  · rw [if_pos hk] at ha ⊢
+    have : retries = 0 := by omega
+    subst this
+    exact invoke_seq k tok W s
+  · rw [if_neg hk]
+    exact invoke_seq k tok W s
+
+theorem call_seq_single (retries : Nat) (k : Kind) (tok : Nat) (W : World) (s : List Ev)
+    (ha : attempts retries k = 1) (h : (call real retries k tok W s).1.done = true) :
+    (call real retries k tok W s).2.1.seq = (W.seq + 1) % seqMod := by
+  revert h
+  unfold call
+  cases hpc : W.pc with
+  | live c => exact body_seq_single retries k tok W s ha
+  | idle =>
+    simp only
+    by_cases hp : k.precheck = true
+    · rw [if_pos hp]; intro h; cases h
+    · rw [if_neg hp]; exact body_seq_single retries k tok W s ha
+  | fresh =>
+    simp only
+    by_cases hp : k.precheck = true
+    · rw [if_pos hp]; intro h; cases h
+    · rw [if_neg hp]
+      by_cases hm : k.needsMeta = true
+      · rw [if_pos hm]
+        have hc := connect_facts W s
+        generalize connect W s = res at hc
+        obtain ⟨r, W1, s1⟩ := res
+        cases r with
+        | err o =>
+          have := hc.err o rfl
+          simp only
+          intro h
+          cases o <;> simp [Outcome.done] at h this
+        | ok c =>
+          simp only
+          intro h
+          rw [body_seq_single retries k tok W1 s1 ha h]
+          have := hc.seq
+          simp only at this
+          rw [this]
+      · rw [if_neg hm]; exact body_seq_single retries k tok W s ha
+
+
+/-! ### the 2^16 alias: a reply left unread while 65535 oneway calls go by -/
+
+/-- one delivered oneway call on a live, healthy connection -/
+def onewayStep (W : World) : World := (call real 0 .oneway 0 W [.ok]).2.1
+
+def onewayN : Nat → World → World
+  | 0, W => W
+  | n + 1, W => onewayN n (onewayStep W)
+
+theorem onewayStep_live (W : World) (q : List Msg) (h : W.pc = .live ⟨q, false⟩) :
+    (onewayStep W).pc = .live ⟨q, false⟩ ∧ (onewayStep W).seq = (W.seq + 1) % seqMod := by
+  simp [onewayStep, call, body, retryLoop, invoke, invokeOn, deliver, h, Kind.retried, Kind.isOneway, Ev.reachesServer]
+
+theorem onewayN_live (n : Nat) : ∀ (W : World) (q : List Msg), W.pc = .live ⟨q, false⟩ → W.seq < seqMod →
+    (onewayN n W).pc = .live ⟨q, false⟩ ∧ (onewayN n W).seq = (W.seq + n) % seqMod := by
+  induction n with
+  | zero => intro W q h hs; exact ⟨h, by simp [onewayN, Nat.mod_eq_of_lt hs]⟩
+  | succ n ih =>
+    intro W q h hs
+    have h1 := onewayStep_live W q h
+    have h2 := ih (onewayStep W) q h1.1 (by rw [h1.2]; exact Nat.mod_lt _ (by decide))
+    refine ⟨h2.1, ?_⟩
+    show (onewayN n (onewayStep W)).seq = _
+    rw [h2.2, h1.2]; simp only [seqMod]; omega
+
+/-- a reply at the head of the unread queue whose sequence number equals the next one is accepted, whoever it was for -/
+theorem alias_accepted (tok : Nat) (W : World) (m : Msg) (rest : List Msg)
+    (h : W.pc = .live ⟨m :: rest, false⟩) (hm : m.hs = false) (hs : m.seq = (W.seq + 1) % seqMod) :
+    (call real 0 .normal tok W [.ok]).1 = .returned m.kind m.tok := by
+  simp [call, body, retryLoop, invoke, invokeOn, deliver, h, Kind.retried, Kind.isOneway, Ev.reachesServer, real, hm, hs]
+
+
 end Pyro.Call
